@@ -21,3 +21,18 @@ pub fn snapshot_from(start: usize) -> Vec<String> {
     let t = TRACE.lock().unwrap();
     t.iter().skip(start).cloned().collect()
 }
+
+static START: Mutex<Option<tokio::time::Instant>> = Mutex::new(None);
+
+/// Reset the virtual clock origin (call inside the runtime at the start of a script).
+pub fn reset_clock() {
+    *START.lock().unwrap() = Some(tokio::time::Instant::now());
+}
+
+/// Virtual milliseconds since the start of the script.
+pub fn now_ms() -> u128 {
+    match *START.lock().unwrap() {
+        Some(s) => tokio::time::Instant::now().duration_since(s).as_millis(),
+        None => 0,
+    }
+}
